@@ -150,13 +150,27 @@ func vGraceMult() time.Duration {
 // vNewScenario must be called serially (fixtureCoordinator/Configure use viper's global state).
 func vNewScenario(conn0 bool) *vScenario {
 	nc := fixtureCoordinator()
-	// interval 0: every iteration of sendEvaluatorRequests re-evaluates (a heartbeat while doEvaluations holds).  The
-	// value reaches nc.minInterval through the real Configure; if it does not, the scenario is not run (badMI).
-	viper.Set("notifier.test.interval", 0)
-	nc.Configure()
+	// interval 1 (the smallest Configure accepts since /repo 38fa1ff), reaching nc.minInterval through the real Configure;
+	// if it does not, the scenario is not run (badMI).  The heartbeat -- every iteration of sendEvaluatorRequests
+	// re-evaluates while doEvaluations holds -- comes from the clock: while the loop scenarios run, the virtual clock
+	// jumps 2 s every 0.3 ms (vFastClock), so g1 is due again at each 1 ms iteration.
+	viper.Set("notifier.test.interval", 1)
+	cfgPanic := false
+	func() {
+		defer func() {
+			if r := recover(); r != nil {
+				cfgPanic = true
+			}
+		}()
+		nc.Configure()
+	}()
 	sc := &vScenario{nc: nc, stop: make(chan struct{})}
-	sc.badMI = nc.minInterval != 0
+	sc.badMI = cfgPanic || nc.minInterval != 1
 	sc.mi = nc.minInterval
+	if cfgPanic {
+		sc.mi = -1
+		return sc
+	}
 	sc.lock = &vFakeLock{app: nc.App, lockRes: make(chan vLockResult), unlockRes: make(chan error)}
 	sc.zk = &vFakeZk{lock: sc.lock}
 	nc.App.Zookeeper = sc.zk
@@ -1187,13 +1201,16 @@ func TestVerifProbeEvalloop(t *testing.T) {
 			t.Fatal(err)
 		}
 		first := true
-		vCfg(strings.Fields(lines[0])[1:], func(tok string) {
+		r := vCfg(strings.Fields(lines[0])[1:], func(tok string) {
 			if !first {
 				outf.WriteString(" ")
 			}
 			first = false
 			outf.WriteString(tok)
 		})
+		if first {
+			outf.WriteString(r) // refused by Configure (CFGPANIC) or not loadable: no token was emitted
+		}
 		outf.WriteString(" END")
 		outf.Close()
 		return
@@ -1225,6 +1242,8 @@ func TestVerifProbeEvalloop(t *testing.T) {
 	sem := make(chan struct{}, maxPar)
 	var wg sync.WaitGroup
 	scen := make(map[int]*vScenario)
+	stopClk := make(chan struct{})
+	go vFastClock(stopClk)
 	for i, l := range lines {
 		f := strings.Fields(l)
 		if f[0] == "loop" {
@@ -1245,6 +1264,9 @@ func TestVerifProbeEvalloop(t *testing.T) {
 		}(i, scen[i], f[2:])
 	}
 	wg.Wait()
+	close(stopClk)
+	time.Sleep(2 * time.Millisecond)
+	VerifSetClock(0)
 
 	for i, l := range lines {
 		f := strings.Fields(l)
@@ -1271,6 +1293,20 @@ func TestVerifProbeEvalloop(t *testing.T) {
 	defer w.Flush()
 	for _, r := range res {
 		fmt.Fprintln(w, r)
+	}
+}
+
+// vFastClock: the virtual clock of the loop scenarios -- it starts at the real time and jumps 2 s every 0.3 ms.
+func vFastClock(stop chan struct{}) {
+	base := time.Now().UnixNano()
+	for k := int64(1); ; k++ {
+		select {
+		case <-stop:
+			return
+		default:
+		}
+		VerifSetClock(base + k*2000000000)
+		time.Sleep(300 * time.Microsecond)
 	}
 }
 
